@@ -340,7 +340,20 @@ pub fn do_read(cache: &Cache, kind: ReadKind, keys: &[u32]) -> (Vec<Option<u64>>
         }
         ReadKind::MultiGetIter => {
             let refs: Vec<&u32> = keys.iter().collect();
-            let got: Vec<Option<u64>> = cache.multi_get_iterator(refs).collect();
+            // consumed through `next()` and, every other position, through `nth(0)` (the same thing
+            // by the Iterator contract; skip / step_by are built on nth)
+            let mut it = cache.multi_get_iterator(refs);
+            let mut got: Vec<Option<u64>> = vec![];
+            loop {
+                let x = if got.len() % 2 == 1 { it.nth(0) } else { it.next() };
+                match x {
+                    Some(v) => got.push(v),
+                    None => break,
+                }
+                if got.len() > keys.len() + 1 {
+                    break;
+                }
+            }
             let complete = got.len() == keys.len();
             let mut vals = got;
             vals.resize(keys.len(), None);
@@ -349,7 +362,18 @@ pub fn do_read(cache: &Cache, kind: ReadKind, keys: &[u32]) -> (Vec<Option<u64>>
         }
         ReadKind::MultiGetMapIter => {
             let refs: Vec<&u32> = keys.iter().collect();
-            let got: Vec<Option<u64>> = cache.multi_get_map_iterator(refs, |v| !v).map(|o| o.map(|v| !v)).collect();
+            let mut it = cache.multi_get_map_iterator(refs, |v| !v);
+            let mut got: Vec<Option<u64>> = vec![];
+            loop {
+                let x = if got.len() % 2 == 1 { it.nth(0) } else { it.next() };
+                match x {
+                    Some(v) => got.push(v.map(|v| !v)),
+                    None => break,
+                }
+                if got.len() > keys.len() + 1 {
+                    break;
+                }
+            }
             let complete = got.len() == keys.len();
             let mut vals = got;
             vals.resize(keys.len(), None);
